@@ -1,5 +1,5 @@
 (* UTF-8 strings: encoder / strict decoder over code-point lists, and the round trip lifted from the
-   per-code-point sweep of Utf8.v. *)
+   per-code-point lemma of Utf8.v. *)
 From Coq Require Import NArith List Bool Lia ZifyBool ZifyN ZifyNat.
 Require Import ListN Bytes Utf8.
 Import ListNotations.
